@@ -215,9 +215,32 @@ def replay_oracle(pid: str):
     return fn
 
 
+def replay_known_findings(ctx: Ctx, pid: str):
+    """every listed finding of the property is replayed on the current tree (corpus first)"""
+    import json
+    from common import VERIF
+    from suites import replay_session, cfg_of
+    for sig, rel in ctx.findings.replays.get(pid, {}).items():
+        f = VERIF / rel
+        if not f.exists():
+            ctx.notes.append(f"replay of known finding missing: {rel}")
+            continue
+        obj = json.load(open(f))
+        sess = replay_session(obj)
+        try:
+            tr = Trace.of_session(sess)
+            fails = replay_oracle(pid)(tr, cfg_of(obj), obj)
+            r = Runner(ctx, "known-findings-corpus")
+            r.add(sess, fails, cfg_of(obj), {"corpus": rel})
+            r.flush()
+        finally:
+            sess.close()
+
+
 def check(ctx: Ctx, pid: str, level: str, rule: str, assumptions: list[str], plans=None,
           extra_explore=None) -> int:
     lean = lean_stage(pid)
+    replay_known_findings(ctx, pid)
     scale = THOROUGH_SCALE if ctx.thorough else 1
     run_plan(ctx, pid, scale, plans)
     if extra_explore is not None:
